@@ -3,7 +3,7 @@ CONSTANTS
   LB = 16
   WINDOW = 7
   SHIFT = 5
-  LOCKSTEP = FALSE
+  LOCKSTEP = TRUE
 INVARIANT Progress
 POSTCONDITION Accepted
 CHECK_DEADLOCK FALSE
